@@ -1,2 +1,147 @@
+(** C20 -- TL2 parser is total with in-range error positions.
+    Property theorems only; each is closed by [exact] of a lemma of Lex/LexProofs.v and followed
+    by [Print Assumptions].  The lexer model (Lex/LexModel.v) is a case-by-case transcription of
+    internal/tlast/tllexer.go with LexerLanguage = TL2 (AllowBuiltin / AllowDirty arbitrary); it is
+    compared token by token with the Go lexer on every run (corr:C20:lex).
+
+    What is proved, for ALL byte strings [s] (no length bound):
+    - the tokenizer never panics (no slice/index out of range) and fuel |s|+1 is never exhausted;
+    - recombination: the values of l.tokens followed by the unread rest are exactly [s]
+      (the check whose violation makes ParseTL2File call log.Panicf);
+    - progress: every nextToken call consumes at least one byte; the only empty token is the final eof;
+    - positions: every token's Position is the true (line, column, startLineOffset, offset) of the byte
+      where the token starts, and offset + len(val) <= len(s);
+    - the front end of ParseTL2File never panics; a tokenizer error carries positions inside the text
+      for which ParseError.consolePrint slices nothing out of range (anyCorrupted stays false).
+
+    Parser proper (tlparser_tl2_code.go): NOT transcribed.  The parser is modelled abstractly: every error it
+    builds is parseErrToken(msg, tok, outer) with [tok] an element of the token slice and [outer] the
+    position of an earlier-or-equal element ([admissibleErr]); for every such error the same in-range
+    facts are proved ([..._partial]).  Full statement that is missing:
+      forall s e, parse (tokens of s) = Err e -> admissibleErr (tokens of s) e   and   parse never panics,
+    for a Gallina transcription [parse] of the recursive-descent parser.  That part is covered on the
+    implementation side only (oracle of lib/lex_lib.py on the real ParseTL2File: recover(), error begin/end
+    offsets, token-boundary check, ConsolePrint/Error() do not panic and do not report a corrupted context). *)
+From Coq Require Import List NArith ZArith.
 From TLV Require Import Lex.LexModel Lex.LexProofs.
-Example placeholder : True. Proof. exact I. Qed.
+Import ListNotations.
+Open Scope N_scope.
+
+Definition opt (builtin dirty : bool) : opts := mkOpts builtin dirty TL2.
+
+Theorem C20_lex_total : forall builtin dirty s, exists r, generateTokens (opt builtin dirty) s = Ok r.
+Proof. exact (fun b d => lex_total (opt b d)). Qed.
+Print Assumptions C20_lex_total.
+
+Theorem C20_lex_recombine : forall builtin dirty s r,
+  generateTokens (opt builtin dirty) s = Ok r -> concat (map t_val (r_all r)) ++ r_rest r = s.
+Proof. exact (fun b d => lex_recombine (opt b d)). Qed.
+Print Assumptions C20_lex_recombine.
+
+Theorem C20_lex_progress : forall builtin dirty s,
+  good s (newLexer s) /\
+  forall st, good s st -> l_str st <> [] ->
+    exists st' e, nextToken (opt builtin dirty) st = Some (st', e) /\ good s st' /\
+                  (length (l_str st') < length (l_str st))%nat.
+Proof. exact (fun b d => lex_progress (opt b d)). Qed.
+Print Assumptions C20_lex_progress.
+
+Theorem C20_lex_only_eof_empty : forall builtin dirty s r a t b,
+  generateTokens (opt builtin dirty) s = Ok r -> r_all r = a ++ t :: b -> t_val t = [] ->
+  b = [] /\ t_type t = T_eof /\ r_rest r = [].
+Proof. exact (fun b d => lex_only_eof_empty (opt b d)). Qed.
+Print Assumptions C20_lex_only_eof_empty.
+
+Theorem C20_lex_pos_ok : forall builtin dirty s r a t b,
+  generateTokens (opt builtin dirty) s = Ok r -> r_all r = a ++ t :: b ->
+  t_pos t = pos_spec (vals a) /\
+  p_off (t_pos t) = lenN (vals a) /\
+  p_off (t_pos t) + lenN (t_val t) <= lenN s /\
+  p_slo (t_pos t) <= p_off (t_pos t) /\
+  p_col (t_pos t) = p_off (t_pos t) - p_slo (t_pos t) + 1 /\
+  p_line (t_pos t) = 1 + count10 (vals a) /\
+  exists post, s = vals a ++ t_val t ++ post.
+Proof. exact (fun b d => lex_pos_ok (opt b d)). Qed.
+Print Assumptions C20_lex_pos_ok.
+
+Theorem C20_front_total : forall builtin dirty s,
+  (exists e, parseFront (opt builtin dirty) s = Ok (F_tokerr e)) \/
+  (exists toks, parseFront (opt builtin dirty) s = Ok (F_tokens toks)).
+Proof. exact (fun b d => front_total (opt b d)). Qed.
+Print Assumptions C20_front_total.
+
+Theorem C20_front_tokens_end_with_eof : forall builtin dirty s toks,
+  parseFront (opt builtin dirty) s = Ok (F_tokens toks) ->
+  exists init p, toks = init ++ [mkTok T_eof [] p] /\ Forall (fun t => t_val t <> []) init /\ vals toks = s.
+Proof. exact (fun b d => front_tokens_end_with_eof (opt b d)). Qed.
+Print Assumptions C20_front_tokens_end_with_eof.
+
+Theorem C20_tokenizer_error_in_range : forall builtin dirty s e,
+  parseFront (opt builtin dirty) s = Ok (F_tokerr e) ->
+  errCorrupted (lenN s) e = false /\
+  p_off (e_begin e) <= p_off (e_end e) <= lenN s /\
+  p_off (e_outer e) <= p_off (e_begin e) /\
+  (exists pre, e_begin e = pos_spec pre /\ exists post, s = pre ++ t_val (e_tok e) ++ post) /\
+  (exists pre, e_outer e = pos_spec pre /\ exists post, s = pre ++ post).
+Proof. exact (fun b d => tokenizer_error_in_range (opt b d)). Qed.
+Print Assumptions C20_tokenizer_error_in_range.
+
+(** partial: about the abstract error model, not about a transcription of the parser (see header) *)
+Theorem C20_parser_error_in_range_partial : forall builtin dirty s toks e,
+  parseFront (opt builtin dirty) s = Ok (F_tokens toks) -> admissibleErr toks e ->
+  errCorrupted (lenN s) e = false /\
+  p_off (e_begin e) <= p_off (e_end e) <= lenN s /\
+  p_off (e_outer e) <= p_off (e_begin e) /\
+  (exists pre, e_begin e = pos_spec pre /\ exists post, s = pre ++ t_val (e_tok e) ++ post) /\
+  (exists pre, e_outer e = pos_spec pre /\ exists post, s = pre ++ post).
+Proof. exact (fun b d => parser_error_in_range (opt b d)). Qed.
+Print Assumptions C20_parser_error_in_range_partial.
+
+(** Non-vacuity: the model really tokenizes, reports errors, and the hypotheses are satisfiable. *)
+(* "a#1a2b3c4d <=> _x:Type;\r\n" *)
+Definition sample : list N :=
+  [97; 35; 49; 97; 50; 98; 51; 99; 52; 100; 32; 60; 61; 62; 32; 95; 120; 58; 84; 121; 112; 101; 59; 13; 10].
+
+Example ex_tokens :
+  match generateTokens (opt false false) sample with
+  | Ok r => map (fun t => (t_type t, lenN (t_val t), p_line (t_pos t), p_col (t_pos t), p_off (t_pos t))) (r_toks r)
+  | _ => []
+  end =
+  [(T_lcIdent, 1, 1, 1, 0); (T_crc32hash, 9, 1, 2, 1); (32%Z, 1, 1, 11, 10); (T_tl2alias, 3, 1, 12, 11); (32%Z, 1, 1, 15, 14);
+   (T_tl2depName, 2, 1, 16, 15); (58%Z, 1, 1, 18, 17); (T_tl2typeSign, 4, 1, 19, 18); (59%Z, 1, 1, 23, 22);
+   (T_newLine, 2, 1, 24, 23); (T_eof, 0, 2, 1, 25)].
+Proof. vm_compute. reflexivity. Qed.
+
+(* "a\n(" : '(' is lexed, then rejected by validateTokens for TL2; position line 2, column 1, offset 2 *)
+Example ex_illegal :
+  match parseFront (opt false false) [97; 10; 40] with
+  | Ok (F_tokerr e) => Some (e_kind e, p_line (e_begin e), p_col (e_begin e), p_off (e_begin e), p_off (e_end e))
+  | _ => None
+  end = Some (E_illegalTL2, 2, 1, 2, 3).
+Proof. vm_compute. reflexivity. Qed.
+
+(* "\r" alone is an error in both languages *)
+Example ex_cr :
+  match generateTokens (opt false false) [97; 13; 98] with
+  | Ok r => (map (fun t => (t_type t, t_val t)) (r_toks r), option_map e_kind (r_err r), r_rest r)
+  | _ => ([], None, [])
+  end = ([(T_lcIdent, [97]); (T_undefined, [13])], Some E_cr, [98]).
+Proof. vm_compute. reflexivity. Qed.
+
+(* an admissible parser error exists for the sample (error at the ';' token, outer = first token) and the
+   conclusion of the partial theorem is not trivially true: a position beyond the text is reported corrupted *)
+Example ex_admissible :
+  match parseFront (opt false false) sample with
+  | Ok (F_tokens toks) =>
+      match nth_error toks 0, nth_error toks 8 with
+      | Some t0, Some t => admissibleErr toks (mkErr E_undefined t (t_pos t0)) /\ t_val t = [59]
+      | _, _ => False
+      end
+  | _ => False
+  end.
+Proof. vm_compute. split; [|reflexivity]. exists 8%nat, 0%nat. eexists. repeat split. apply Nat.le_0_l. Qed.
+
+Example ex_corrupted_detects :
+  errCorrupted 5 (mkErr E_undefined (mkTok 59%Z [59] (mkPos 1 6 0 5)) (mkPos 1 1 0 0)) = true.
+Proof. vm_compute. reflexivity. Qed.
+
